@@ -44,6 +44,10 @@ def _mk_cls(log):
         def shutdown(self, wait=True, kill_workers=False):
             log.add("shutdown", self.executor_id, wait, kill_workers)
             self._flags.shutdown = True
+            if getattr(self, "interrupted", False):
+                # the wait inside shutdown is cut short (KeyboardInterrupt in the caller, or "cannot join current
+                # thread" when called from a done-callback): the instance is flagged but still winding down
+                raise RuntimeError("wait interrupted")
 
         def _resize(self, max_workers):
             log.add("resize", self.executor_id, max_workers)
@@ -56,7 +60,7 @@ def _mk_cls(log):
 
 def check_factory_step(has_prev: bool, p_broken: bool, p_shutdown: bool, p_mw: int, p_timeout: int,
                        p_init: int, next_id: int, mw: int, timeout: int, init: int, reuse: int,
-                       kill: bool, ctx: int) -> bool:
+                       kill: bool, ctx: int, interrupted: bool = False) -> bool:
     """
     pre: 1 <= p_mw <= 3 and 0 <= p_timeout <= 1 and 0 <= p_init <= 1
     pre: 1 <= next_id <= 5
@@ -80,6 +84,7 @@ def check_factory_step(has_prev: bool, p_broken: bool, p_shutdown: bool, p_mw: i
         prev = Rec(rx._executor_lock, max_workers=p_mw, executor_id=next_id - 1, **prev_kw)
         prev._flags.shutdown = p_shutdown or p_broken
         prev._flags.broken = RuntimeError("broken") if p_broken else None
+        prev.interrupted = bool(interrupted)
         del log[:]
     saved = (rx._executor, rx._executor_kwargs, rx._next_executor_id, rx.cpu_count)
     rx._executor, rx._executor_kwargs, rx._next_executor_id = prev, prev_kw, next_id
@@ -90,6 +95,8 @@ def check_factory_step(has_prev: bool, p_broken: bool, p_shutdown: bool, p_mw: i
                                                    reuse=reuse_v, **kw)
             raised = None
         except ValueError as e:
+            raised = e
+        except RuntimeError as e:
             raised = e
         post = (rx._executor, rx._executor_kwargs, rx._next_executor_id)
     finally:
@@ -102,6 +109,11 @@ def check_factory_step(has_prev: bool, p_broken: bool, p_shutdown: bool, p_mw: i
     bad_args = (max_workers is not None and max_workers <= 0) or (ctx_v is not None and ctx_v.method == "fork")
     if bad_args:  # rejected without touching the singleton or spawning anything
         return raised is not None and post == (prev, prev_kw, next_id) and len(log) == 0
+    if isinstance(raised, RuntimeError):
+        # only the interrupted wait may raise; the previous instance is then still winding down, so the module must
+        # not forget it: the next call has to find it (flagged shut down) and wait for it before building a new one
+        return (prev is not None and prev.interrupted and post == (prev, prev_kw, next_id)
+                and log == [("shutdown", next_id - 1, True, kill)])
     if raised is not None:
         return False
     if max_workers is None:
